@@ -649,7 +649,9 @@ def run(c):
         "CachingQPSol reports the cost without the constant term f(0) of the objective (instances have f(0) = 0)",
         "results (trajectories) are compared only through the per-priority optima; uniqueness is not certified here",
     ]
-    c.prove()
+    from .translate_c17 import gen_c17
+
+    c.prove(extra=gen_c17(c))  # + kernels translated from the source on every run
     t0 = time.time()
     run_check(c)
     c.notes.append("runtime equivalences are decided by differential runs (partial); formulation-level equalities and "
@@ -657,6 +659,8 @@ def run(c):
 
 
 def replay(c, rp):
-    c.prove()
+    from .translate_c17 import gen_c17
+
+    c.prove(extra=gen_c17(c))  # + kernels translated from the source on every run
     table_check(c)
     corpus(c)
